@@ -146,21 +146,23 @@ Section SameTag.
 
   (** ** d.Opt on an omitempty element: written unless zero, and then the zero value is what
       the decoder leaves *)
-  Lemma dopt_omit fe fc st t tag x items st' (es rest : list (relem R)) fd :
+  Lemma dopt_omit fe fc st t tag x items st' :
     P_ty fe ->
     (if is_zero x then Ok ([], st) else enc_ty fe st t tag x) = Ok (items, st') ->
     conf_ty fc st t tag x = Some st -> wf_ty t = true ->
     (is_zero x = true -> x = zero_of S 8 t) ->
-    faithful F items es -> c_tag (rest, false) <> tag ->
-    (fe + 2 * items_size items + 2 <= fd)%nat ->
     st' = st /\ tags_all tag items /\
-    dec_opt (Datatypes.S fd) st t tag (es ++ rest, false) = Ok (x, (rest, false), st).
+    forall (es rest : list (relem R)) fd, faithful F items es -> c_tag (rest, false) <> tag ->
+      (fe + 2 * items_size items + 2 <= fd)%nat ->
+      dec_opt (Datatypes.S fd) st t tag (es ++ rest, false) = Ok (x, (rest, false), st).
   Proof.
-    intros HP He Hc Hwf Hz Hf Hnext Hfd. destruct (is_zero x) eqn:Ez.
-    - injection He as <- <-. apply faithful_nil_inv in Hf. subst es. split; [reflexivity|]. split; [constructor|].
+    intros HP He Hc Hwf Hz. destruct (is_zero x) eqn:Ez.
+    - injection He as <- <-. split; [reflexivity|]. split; [constructor|].
+      intros es rest fd Hf Hnext Hfd. apply faithful_nil_inv in Hf. subst es.
       cbn [app]. rewrite dec_opt_absent by assumption. rewrite <- (Hz eq_refl). reflexivity.
     - destruct (HP _ _ _ _ _ _ _ _ He Hc) as (<- & Hta & _ & Hne & Hdec).
       split; [reflexivity|]. split; [exact Hta|].
+      intros es rest fd Hf Hnext Hfd.
       specialize (Hne Hwf Ez).
       rewrite dec_opt_present.
       + apply Hdec; [assumption | intros _; assumption | assumption].
@@ -168,6 +170,9 @@ Section SameTag.
         apply faithful_cons_inv in Hf. destruct Hf as (e & el & -> & He1 & _). cbn [app].
         rewrite (faithful1_tag F _ _ _ _ He1). inversion Hta; assumption.
   Qed.
+
+  Lemma omit_zero_eq fd x : omit_zero S fd x = true -> is_zero x = true -> x = zero_of S 8 (f_ty fd).
+  Proof. unfold omit_zero. intros H E. rewrite E in H. apply value_eqb_eq, H. Qed.
 
   (** ** the tag the reader sees next: 0 at the end, or the tag of a later element *)
   Definition hd_in (l : list item) (ts : list Z) : Prop := hd_tag l = 0 \/ In (hd_tag l) ts.
